@@ -1087,7 +1087,13 @@ macro_rules! proof {
 /// Runs `Server::handle_non_axfr_query` for the question in `req` against
 /// `zone`, writing into `resp` with the given size limit.  Returns the length
 /// of the finished message.
-fn run<'d>(zone: &MockZone<'d>, req: &[u8], udp: bool, limit: usize, resp: &mut [u8]) -> usize {
+///
+/// `qname`: the QNAME of `req` as a pool name.  The Question handed to the
+/// code is the one the real Reader parsed from `req`, except that its
+/// `Box<Name>` points at the stack-built view of the same name (checked to be
+/// equal) instead of a heap copy: CBMC keeps the constants of the view, so
+/// echoing the question stays concrete.  The box is never dropped.
+fn run<'d>(zone: &MockZone<'d>, req: &[u8], qname: PN, udp: bool, limit: usize, resp: &mut [u8]) -> usize {
     // `handle_non_axfr_query` is a method of Server but never reads `self`
     // (query.rs:81-108: it only dispatches on the question and maps the
     // error of answer/answer_any).  The Server value is therefore never
@@ -1103,7 +1109,14 @@ fn run<'d>(zone: &MockZone<'d>, req: &[u8], udp: bool, limit: usize, resp: &mut 
         if udp { Transport::Udp } else { Transport::Tcp },
     );
     let mut context = Context::new(&cat, Reader::try_from(req).unwrap(), info, Writer::new(resp, limit).unwrap());
-    let q = context.received.read_question().unwrap();
+    let parsed = context.received.read_question().unwrap();
+    assert!(name_is(&parsed.qname, qname.wire()), "[C05] harness: QNAME of the request is the pool name");
+    let q = crate::message::Question {
+        qname: unsafe { Box::from_raw(qname.name() as *const Name as *mut Name) },
+        qtype: parsed.qtype,
+        qclass: parsed.qclass,
+    };
+    core::mem::forget(parsed);
     context.response.add_question(&q).unwrap();
     context.question = Some(q);
     server.handle_non_axfr_query(zone, &mut context);
@@ -1246,7 +1259,7 @@ fn negative(out: Out) {
     zone.n_steps = 1;
     let req = req_a(T_A);
     let mut resp = [0u8; 64];
-    let n = run(&zone, &req, true, 64, &mut resp);
+    let n = run(&zone, &req, P_A, true, 64, &mut resp);
 
     // reference: RFC 1034 4.3.2 step 3c / RFC 2308 sections 2 and 3
     let mut ex = Expect::new(QEND_A);
@@ -1282,7 +1295,7 @@ fn bad_soa(has_soa: bool, raw: &[u8], out: Out) {
     zone.n_steps = 1;
     let req = req_a(T_A);
     let mut resp = [0u8; 64];
-    let n = run(&zone, &req, true, 64, &mut resp);
+    let n = run(&zone, &req, P_A, true, 64, &mut resp);
     let ex = Expect::servfail(QEND_A);
     check_response(&resp, n, &ex, true, 64);
     kani::cover!(n == QEND_A, "empty server failure");
@@ -1348,7 +1361,7 @@ proof!(c05_found_a, 7, {
     zone.n_steps = 1;
     let req = req_a(T_A);
     let mut resp = [0u8; 64];
-    let n = run(&zone, &req, true, 64, &mut resp);
+    let n = run(&zone, &req, P_A, true, 64, &mut resp);
 
     // reference: the RRset with owner QNAME (also for a wildcard match), AA
     let mut ex = Expect::new(QEND_A);
@@ -1375,7 +1388,7 @@ proof!(c05_found_a2, 7, {
     zone.n_steps = 1;
     let req = req_a(T_A);
     let mut resp = [0u8; 64];
-    let n = run(&zone, &req, true, 64, &mut resp);
+    let n = run(&zone, &req, P_A, true, 64, &mut resp);
     let mut ex = Expect::new(QEND_A);
     ex.aa = true;
     ex.push(exp_a(1, P_A.wire(), T_A, ttl, o), A_REC);
@@ -1412,7 +1425,7 @@ fn found_target(rtype: u16, udp: bool, limit: usize, has_a: bool, has_aaaa: bool
     zone.n_asteps = 1;
     let req = req_a(rtype);
     let mut resp = [0u8; 64];
-    let n = run(&zone, &req, udp, limit, &mut resp);
+    let n = run(&zone, &req, P_A, udp, limit, &mut resp);
 
     // reference: the RRset; addresses of the target are useful additional
     // data, optional (RFC 2181 section 9)
@@ -1424,48 +1437,58 @@ fn found_target(rtype: u16, udp: bool, limit: usize, has_a: bool, has_aaaa: bool
     (check_response(&resp, n, &ex, udp, limit), n)
 }
 
-// @harness name=c05_found_mx props=C05,C04 panics=C05,C01 quick=C05 mem=6 t=2400 kani="--no-assertion-reach-checks" stubs="M1,T0"
+// @harness name=c05_found_mx props=C05,C04 panics=C05,C01 quick=C05 mem=4.5 t=3600 kani="--no-assertion-reach-checks" stubs="M1,T0"
 //   fn="Server::handle_non_axfr_query,answer,do_additional_section_processing,add_additional_addresses,execute_allowing_truncation,read_name_from_rdata,Writer::add_answer_rrset,Writer::add_additional_rrset"
-//   bound="UDP, limit 64; question a. MX IN; lookup(a.) = Found(MX pref b.); two runs: b. has an A (52 octets, complete); b. has A and AAAA (80 octets: optional data dropped, no TC needed); unwind 7"
-//   sym="per run: ttl, pref, a_ttl, aaaa_ttl, 4 + 16 address octets"
+//   bound="UDP, limit 64; question a. MX IN; lookup(a.) = Found(MX .. b.); lookup_addrs(b.) = Found with an A: 52 octets, complete; unwind 7"
+//   sym="TTL of the RRset, fixed RDATA octets, TTLs and octets of the address records"
 proof!(c05_found_mx, 7, {
     let (case, n) = found_target(T_MX, true, 64, true, false);
     kani::cover!(case == COMPLETE && n == 52, "MX answer with the A of the exchange");
-    let (case2, n2) = found_target(T_MX, true, 64, true, true);
-    kani::cover!(case2 == PARTIAL && n2 == 52, "AAAA of the exchange dropped without TC");
 });
 
-// @harness name=c05_found_mx_none props=C05 panics=C05,C01 tier=thorough mem=6 t=2400 kani="--no-assertion-reach-checks" stubs="M1,T0"
-//   fn="Server::handle_non_axfr_query,answer,do_additional_section_processing,add_additional_addresses"
-//   bound="UDP, limit 64; question a. MX IN; Found(MX pref b.); two runs: b. exists without addresses; b. has only an AAAA (64 octets, fits exactly); unwind 7"
-//   sym="per run: ttl, pref, TTLs, address octets"
+// @harness name=c05_found_mx_both props=C05,C04 panics=C05,C01 tier=thorough mem=4.5 t=3600 kani="--no-assertion-reach-checks" stubs="M1,T0"
+//   fn="Server::handle_non_axfr_query,answer,do_additional_section_processing,add_additional_addresses,execute_allowing_truncation,read_name_from_rdata,Writer::add_answer_rrset,Writer::add_additional_rrset"
+//   bound="UDP, limit 64; question a. MX IN; lookup(a.) = Found(MX .. b.); lookup_addrs(b.) = Found with A and AAAA: 80 octets needed: the AAAA is optional data and is dropped, no TC; unwind 7"
+//   sym="TTL of the RRset, fixed RDATA octets, TTLs and octets of the address records"
+proof!(c05_found_mx_both, 7, {
+    let (case, n) = found_target(T_MX, true, 64, true, true);
+    kani::cover!(case == PARTIAL && n == 52, "AAAA of the exchange dropped without TC");
+});
+
+// @harness name=c05_found_mx_aaaa props=C05,C04 panics=C05,C01 tier=thorough mem=4.5 t=3600 kani="--no-assertion-reach-checks" stubs="M1,T0"
+//   fn="Server::handle_non_axfr_query,answer,do_additional_section_processing,add_additional_addresses,execute_allowing_truncation,read_name_from_rdata,Writer::add_answer_rrset,Writer::add_additional_rrset"
+//   bound="UDP, limit 64; question a. MX IN; lookup(a.) = Found(MX .. b.); lookup_addrs(b.) = Found with an AAAA: 64 octets, fits exactly; unwind 7"
+//   sym="TTL of the RRset, fixed RDATA octets, TTLs and octets of the address records"
+proof!(c05_found_mx_aaaa, 7, {
+    let (case, n) = found_target(T_MX, true, 64, false, true);
+    kani::cover!(case == COMPLETE && n == 64, "MX answer with the AAAA of the exchange");
+});
+
+// @harness name=c05_found_mx_none props=C05,C04 panics=C05,C01 tier=thorough mem=4.5 t=3600 kani="--no-assertion-reach-checks" stubs="M1,T0"
+//   fn="Server::handle_non_axfr_query,answer,do_additional_section_processing,add_additional_addresses,execute_allowing_truncation,read_name_from_rdata,Writer::add_answer_rrset,Writer::add_additional_rrset"
+//   bound="UDP, limit 64; question a. MX IN; lookup(a.) = Found(MX .. b.); lookup_addrs(b.) = Found with no address record: 36 octets, no additional data; unwind 7"
+//   sym="TTL of the RRset, fixed RDATA octets, TTLs and octets of the address records"
 proof!(c05_found_mx_none, 7, {
     let (case, n) = found_target(T_MX, true, 64, false, false);
     kani::cover!(case == COMPLETE && n == 36, "MX answer without additional data");
-    let (case2, n2) = found_target(T_MX, true, 64, false, true);
-    kani::cover!(case2 == COMPLETE && n2 == 64, "MX answer with the AAAA of the exchange");
 });
 
-// @harness name=c05_found_ns props=C05,C04 panics=C05,C01 tier=thorough mem=6 t=2400 kani="--no-assertion-reach-checks" stubs="M1,T0"
-//   fn="Server::handle_non_axfr_query,answer,do_additional_section_processing,add_additional_addresses,execute_allowing_truncation"
-//   bound="UDP, limit 64; question a. NS IN; lookup(a.) = Found(NS b.) (an authoritative NS RRset, e.g. at the apex); two runs: b. has an A; b. has an AAAA; unwind 7"
-//   sym="per run: ttl, TTLs, address octets"
+// @harness name=c05_found_ns props=C05,C04 panics=C05,C01 tier=thorough mem=4.5 t=3600 kani="--no-assertion-reach-checks" stubs="M1,T0"
+//   fn="Server::handle_non_axfr_query,answer,do_additional_section_processing,add_additional_addresses,execute_allowing_truncation,read_name_from_rdata,Writer::add_answer_rrset,Writer::add_additional_rrset"
+//   bound="UDP, limit 64; question a. NS IN; lookup(a.) = Found(NS .. b.); lookup_addrs(b.) = Found with an A: authoritative NS RRset (e.g. at the apex), 50 octets; unwind 7"
+//   sym="TTL of the RRset, fixed RDATA octets, TTLs and octets of the address records"
 proof!(c05_found_ns, 7, {
     let (case, n) = found_target(T_NS, true, 64, true, false);
     kani::cover!(case == COMPLETE && n == 50, "NS answer with the A of the server");
-    let (case2, n2) = found_target(T_NS, true, 64, false, true);
-    kani::cover!(case2 == COMPLETE && n2 == 62, "NS answer with the AAAA of the server");
 });
 
-// @harness name=c05_found_srv props=C05,C04 panics=C05,C01 tier=thorough mem=6 t=2400 kani="--no-assertion-reach-checks" stubs="M1,T0"
-//   fn="Server::handle_non_axfr_query,answer,do_additional_section_processing,add_additional_addresses,execute_allowing_truncation"
-//   bound="UDP, limit 64; question a. SRV IN; lookup(a.) = Found(SRV prio weight port b.); two runs: b. has an A (56 octets); b. has an AAAA (68: dropped); unwind 7"
-//   sym="per run: ttl, 6 SRV octets, TTLs, address octets"
+// @harness name=c05_found_srv props=C05,C04 panics=C05,C01 tier=thorough mem=4.5 t=3600 kani="--no-assertion-reach-checks" stubs="M1,T0"
+//   fn="Server::handle_non_axfr_query,answer,do_additional_section_processing,add_additional_addresses,execute_allowing_truncation,read_name_from_rdata,Writer::add_answer_rrset,Writer::add_additional_rrset"
+//   bound="UDP, limit 64; question a. SRV IN; lookup(a.) = Found(SRV .. b.); lookup_addrs(b.) = Found with an A: 56 octets; unwind 7"
+//   sym="TTL of the RRset, fixed RDATA octets, TTLs and octets of the address records"
 proof!(c05_found_srv, 7, {
     let (case, n) = found_target(T_SRV, true, 64, true, false);
     kani::cover!(case == COMPLETE && n == 56, "SRV answer with the A of the target");
-    let (case2, n2) = found_target(T_SRV, true, 64, false, true);
-    kani::cover!(case2 == PARTIAL && n2 == 40, "AAAA of the target dropped without TC");
 });
 
 // @harness name=c05_found_mx_badrdata props=C05 panics=C05,C01 tier=thorough mem=4 t=900 kani="--no-assertion-reach-checks" stubs="M1,T0"
@@ -1487,7 +1510,7 @@ proof!(c05_found_mx_badrdata, 7, {
         zone.n_steps = 1;
         let req = req_a(T_MX);
         let mut resp = [0u8; 64];
-        let n = run(&zone, &req, true, 64, &mut resp);
+        let n = run(&zone, &req, P_A, true, 64, &mut resp);
         // reference: data that cannot be put on the wire is a server failure
         let ex = Expect::servfail(QEND_A);
         check_response(&resp, n, &ex, true, 64);
@@ -1536,9 +1559,9 @@ fn chain<const BUF: usize>(root_q: bool, targets: &[PN], raws: &[[u8; 5]], n: us
     zone.n_steps = n + 1;
     let mut resp = [0u8; BUF];
     let n_resp = if root_q {
-        run(&zone, &req_root(T_A), udp, limit, &mut resp)
+        run(&zone, &req_root(T_A), P_ROOT, udp, limit, &mut resp)
     } else {
-        run(&zone, &req_a(T_A), udp, limit, &mut resp)
+        run(&zone, &req_a(T_A), P_A, udp, limit, &mut resp)
     };
     let mut ex = ref_chain(qend, qname, targets, &ttls, &sizes, n, fin, &soa);
     if ex.n > 0 && ex.recs[ex.n - 1].rtype == T_SOA {
@@ -1606,14 +1629,22 @@ proof!(c05_cname_loop1, 7, {
     kani::cover!(true, "self loop answered");
 });
 
-// @harness name=c05_cname_loop2 props=C05 panics=C05,C01 tier=thorough mem=6 t=1800 kani="--no-assertion-reach-checks" stubs="M1,T0"
+// @harness name=c05_cname_loop2 props=C05 panics=C05,C01 tier=thorough mem=4.5 t=3600 kani="--no-assertion-reach-checks" stubs="M1,T0"
 //   fn="Server::handle_non_axfr_query,answer,do_cname,follow_cname_1,follow_cname_2"
-//   bound="UDP, limit 64; question a. A IN; a. CNAME b., b. CNAME a. (and: a. CNAME b., b. CNAME b.): SERVFAIL, no records, AA clear; unwind 7"
+//   bound="UDP, limit 64; question a. A IN; a. CNAME b., b. CNAME a.: SERVFAIL, no records, AA clear; unwind 7"
 //   sym="CNAME TTLs"
 proof!(c05_cname_loop2, 7, {
     chain::<64>(false, &[P_B, P_A], &[name1_raw(b'b'), name1_raw(b'a')], 2, Final::NxDomain, true, 64);
+    kani::cover!(true, "two-link loop answered");
+});
+
+// @harness name=c05_cname_loop2b props=C05 panics=C05,C01 tier=thorough mem=4.5 t=3600 kani="--no-assertion-reach-checks" stubs="M1,T0"
+//   fn="Server::handle_non_axfr_query,answer,do_cname,follow_cname_1,follow_cname_2"
+//   bound="UDP, limit 64; question a. A IN; a. CNAME b., b. CNAME b.: SERVFAIL, no records, AA clear; unwind 7"
+//   sym="CNAME TTLs"
+proof!(c05_cname_loop2b, 7, {
     chain::<64>(false, &[P_B, P_B], &[name1_raw(b'b'), name1_raw(b'b')], 2, Final::NxDomain, true, 64);
-    kani::cover!(true, "two-link loops answered");
+    kani::cover!(true, "loop at the second link answered");
 });
 
 // @harness name=c05_cname_chain8 props=C05 panics=C05,C01 tier=thorough mem=10 t=3600 kani="--no-assertion-reach-checks" stubs="M1,T0"
@@ -1662,7 +1693,7 @@ proof!(c05_cname_badrdata, 7, {
         zone.n_steps = 1;
         let req = req_a(T_A);
         let mut resp = [0u8; 64];
-        let n = run(&zone, &req, true, 64, &mut resp);
+        let n = run(&zone, &req, P_A, true, 64, &mut resp);
         let ex = Expect::servfail(QEND_A);
         check_response(&resp, n, &ex, true, 64);
         k += 1;
@@ -1696,7 +1727,7 @@ fn referral(in_bailiwick: bool, any_q: bool, udp: bool, limit: usize, has_a: boo
     zone.n_asteps = 1;
     let req = req_a(if any_q { 255 } else { T_A });
     let mut resp = [0u8; 64];
-    let n = run(&zone, &req, udp, limit, &mut resp);
+    let n = run(&zone, &req, P_A, udp, limit, &mut resp);
 
     // reference: not authoritative, NS RRset of the cut in the authority
     // section, addresses of the name server in the additional section
@@ -1707,46 +1738,74 @@ fn referral(in_bailiwick: bool, any_q: bool, udp: bool, limit: usize, has_a: boo
     (check_response(&resp, n, &ex, udp, limit), n)
 }
 
-// @harness name=c05_referral_glue props=C05,C04 panics=C05,C01 tier=quick mem=6 t=2400 kani="--no-assertion-reach-checks" stubs="M1,T0"
-//   fn="Server::handle_non_axfr_query,answer,do_referral,add_additional_addresses,read_name_from_rdata,Name::eq_or_subdomain_of,Writer::add_authority_rrset,Writer::add_additional_rrset"
-//   bound="UDP, limit 64; question a. A IN; lookup(a.) = Referral(cut a., NS b.a.); glue visible only below the cut; two runs: glue A (51 octets); glue A + AAAA (79 octets: must be truncated, never sent without glue); unwind 7"
-//   sym="per run: NS TTL, 2 TTLs, 4 + 16 address octets"
+// @harness name=c05_referral_glue props=C05,C04 panics=C05,C01 tier=quick mem=4.5 t=3600 kani="--no-assertion-reach-checks" stubs="M1,T0"
+//   fn="Server::handle_non_axfr_query,answer,do_referral,add_additional_addresses,execute_allowing_truncation,read_name_from_rdata,Name::eq_or_subdomain_of,Writer::add_authority_rrset,Writer::add_additional_rrset"
+//   bound="UDP, limit 64; question a. A IN; Referral(cut a., NS b.a. (in bailiwick: glue, visible only below the cut, mandatory)); the name server has an A: 51 octets, complete; unwind 7"
+//   sym="NS TTL, TTLs and octets of the address records"
 proof!(c05_referral_glue, 7, {
     let (case, n) = referral(true, false, true, 64, true, false);
     kani::cover!(case == COMPLETE && n == 51, "referral with glue A");
-    let (case2, _n2) = referral(true, false, true, 64, true, true);
-    kani::cover!(case2 == TRUNCATED, "glue does not fit: truncated");
+    let _ = n;
 });
 
-// @harness name=c05_referral_glue6 props=C05,C04 panics=C05,C01 tier=thorough mem=6 t=2400 kani="--no-assertion-reach-checks" stubs="M1,T0"
-//   fn="Server::handle_non_axfr_query,answer,do_referral,add_additional_addresses"
-//   bound="UDP, limit 64; Referral(cut a., NS b.a.); two runs: glue AAAA only (63 octets); name server without any address record (35 octets); unwind 7"
-//   sym="per run: NS TTL, 2 TTLs, address octets"
-proof!(c05_referral_glue6, 7, {
+// @harness name=c05_referral_glue_both props=C05,C04 panics=C05,C01 tier=thorough mem=4.5 t=3600 kani="--no-assertion-reach-checks" stubs="M1,T0"
+//   fn="Server::handle_non_axfr_query,answer,do_referral,add_additional_addresses,execute_allowing_truncation,read_name_from_rdata,Name::eq_or_subdomain_of,Writer::add_authority_rrset,Writer::add_additional_rrset"
+//   bound="UDP, limit 64; question a. A IN; Referral(cut a., NS b.a. (in bailiwick: glue, visible only below the cut, mandatory)); the name server has A and AAAA: 79 octets needed: must be truncated, never sent without the glue; unwind 7"
+//   sym="NS TTL, TTLs and octets of the address records"
+proof!(c05_referral_glue_both, 7, {
+    let (case, n) = referral(true, false, true, 64, true, true);
+    kani::cover!(case == TRUNCATED, "glue does not fit: truncated");
+    let _ = n;
+});
+
+// @harness name=c05_referral_glue_aaaa props=C05,C04 panics=C05,C01 tier=thorough mem=4.5 t=3600 kani="--no-assertion-reach-checks" stubs="M1,T0"
+//   fn="Server::handle_non_axfr_query,answer,do_referral,add_additional_addresses,execute_allowing_truncation,read_name_from_rdata,Name::eq_or_subdomain_of,Writer::add_authority_rrset,Writer::add_additional_rrset"
+//   bound="UDP, limit 64; question a. A IN; Referral(cut a., NS b.a. (in bailiwick: glue, visible only below the cut, mandatory)); the name server has an AAAA: 63 octets, complete; unwind 7"
+//   sym="NS TTL, TTLs and octets of the address records"
+proof!(c05_referral_glue_aaaa, 7, {
     let (case, n) = referral(true, false, true, 64, false, true);
     kani::cover!(case == COMPLETE && n == 63, "referral with glue AAAA");
-    let (case2, n2) = referral(true, false, true, 64, false, false);
-    kani::cover!(case2 == COMPLETE && n2 == 35, "referral without addresses");
+    let _ = n;
 });
 
-// @harness name=c05_referral_out props=C05,C04 panics=C05,C01 tier=thorough mem=6 t=2400 kani="--no-assertion-reach-checks" stubs="M1,T0"
-//   fn="Server::handle_non_axfr_query,answer,do_referral,add_additional_addresses,execute_allowing_truncation"
-//   bound="UDP, limit 64; question a. A IN; lookup(a.) = Referral(cut a., NS c.) with c. a name of the parent zone; two runs: c. has an A (50 octets); c. has A and AAAA (78: optional, dropped without TC); unwind 7"
-//   sym="per run: NS TTL, 2 TTLs, 4 + 16 address octets"
+// @harness name=c05_referral_glue_none props=C05,C04 panics=C05,C01 tier=thorough mem=4.5 t=3600 kani="--no-assertion-reach-checks" stubs="M1,T0"
+//   fn="Server::handle_non_axfr_query,answer,do_referral,add_additional_addresses,execute_allowing_truncation,read_name_from_rdata,Name::eq_or_subdomain_of,Writer::add_authority_rrset,Writer::add_additional_rrset"
+//   bound="UDP, limit 64; question a. A IN; Referral(cut a., NS b.a. (in bailiwick: glue, visible only below the cut, mandatory)); the name server has no address record: 35 octets; unwind 7"
+//   sym="NS TTL, TTLs and octets of the address records"
+proof!(c05_referral_glue_none, 7, {
+    let (case, n) = referral(true, false, true, 64, false, false);
+    kani::cover!(case == COMPLETE && n == 35, "referral without addresses");
+    let _ = n;
+});
+
+// @harness name=c05_referral_out props=C05,C04 panics=C05,C01 tier=thorough mem=4.5 t=3600 kani="--no-assertion-reach-checks" stubs="M1,T0"
+//   fn="Server::handle_non_axfr_query,answer,do_referral,add_additional_addresses,execute_allowing_truncation,read_name_from_rdata,Name::eq_or_subdomain_of,Writer::add_authority_rrset,Writer::add_additional_rrset"
+//   bound="UDP, limit 64; question a. A IN; Referral(cut a., NS c. (a name of the parent zone: addresses optional)); the name server has an A: 50 octets, complete; unwind 7"
+//   sym="NS TTL, TTLs and octets of the address records"
 proof!(c05_referral_out, 7, {
     let (case, n) = referral(false, false, true, 64, true, false);
     kani::cover!(case == COMPLETE && n == 50, "referral with the A of an out-of-bailiwick server");
-    let (case2, _n2) = referral(false, false, true, 64, true, true);
-    kani::cover!(case2 == PARTIAL, "optional address dropped without TC");
+    let _ = n;
 });
 
-// @harness name=c05_any_referral props=C05,C04 panics=C05,C01 tier=thorough mem=6 t=2400 kani="--no-assertion-reach-checks" stubs="M1,T0"
-//   fn="Server::handle_non_axfr_query,answer_any,do_referral,add_additional_addresses"
-//   bound="UDP, limit 64; question a. * IN; lookup_all = Referral(cut a., NS b.a.) with glue A; unwind 7"
-//   sym="NS TTL, 2 TTLs, address octets"
+// @harness name=c05_referral_out_both props=C05,C04 panics=C05,C01 tier=thorough mem=4.5 t=3600 kani="--no-assertion-reach-checks" stubs="M1,T0"
+//   fn="Server::handle_non_axfr_query,answer,do_referral,add_additional_addresses,execute_allowing_truncation,read_name_from_rdata,Name::eq_or_subdomain_of,Writer::add_authority_rrset,Writer::add_additional_rrset"
+//   bound="UDP, limit 64; question a. A IN; Referral(cut a., NS c. (a name of the parent zone: addresses optional)); the name server has A and AAAA: 78 octets needed: optional data dropped without TC; unwind 7"
+//   sym="NS TTL, TTLs and octets of the address records"
+proof!(c05_referral_out_both, 7, {
+    let (case, n) = referral(false, false, true, 64, true, true);
+    kani::cover!(case == PARTIAL, "optional address dropped without TC");
+    let _ = n;
+});
+
+// @harness name=c05_any_referral props=C05,C04 panics=C05,C01 tier=thorough mem=4.5 t=3600 kani="--no-assertion-reach-checks" stubs="M1,T0"
+//   fn="Server::handle_non_axfr_query,answer_any,do_referral,add_additional_addresses,execute_allowing_truncation,read_name_from_rdata,Name::eq_or_subdomain_of,Writer::add_authority_rrset,Writer::add_additional_rrset"
+//   bound="UDP, limit 64; question a. * IN; Referral(cut a., NS b.a. (in bailiwick: glue, visible only below the cut, mandatory)); the name server has an A: 51 octets, complete; unwind 7"
+//   sym="NS TTL, TTLs and octets of the address records"
 proof!(c05_any_referral, 7, {
     let (case, n) = referral(true, true, true, 64, true, false);
     kani::cover!(case == COMPLETE && n == 51, "ANY referral with glue A");
+    let _ = n;
 });
 
 /// Two name servers: a. itself (in bailiwick: glue A mandatory) and c.
@@ -1772,7 +1831,7 @@ fn referral_2ns(udp: bool, limit: usize, has_o: bool) -> (u8, usize) {
     zone.n_asteps = 2;
     let req = req_a(T_A);
     let mut resp = [0u8; 64];
-    let n = run(&zone, &req, udp, limit, &mut resp);
+    let n = run(&zone, &req, P_A, udp, limit, &mut resp);
 
     let mut ex = Expect::new(QEND_A);
     // NS a.: owner pointer, RDATA pointer; NS c.: owner pointer, RDATA written out
@@ -1783,15 +1842,22 @@ fn referral_2ns(udp: bool, limit: usize, has_o: bool) -> (u8, usize) {
     (check_response(&resp, n, &ex, udp, limit), n)
 }
 
-// @harness name=c05_referral_2ns props=C05,C04 panics=C05,C01 tier=thorough mem=6 t=2400 kani="--no-assertion-reach-checks" stubs="M1,T0"
-//   fn="Server::handle_non_axfr_query,answer,do_referral,add_additional_addresses,execute_allowing_truncation"
-//   bound="UDP, limit 64; question a. A IN; Referral(cut a., NS {a., c.}); glue A of a. present; two runs: c. without address (64 octets, complete); c. with an A (80 octets: glue kept, the other address dropped); address lookups answered in the order glue, others; unwind 7"
-//   sym="per run: NS TTL, 2 address TTLs, 8 address octets"
+// @harness name=c05_referral_2ns props=C05,C04 panics=C05,C01 tier=thorough mem=4.5 t=3600 kani="--no-assertion-reach-checks" stubs="M1,T0"
+//   fn="Server::handle_non_axfr_query,answer,do_referral,add_additional_addresses,execute_allowing_truncation,read_name_from_rdata,Name::eq_or_subdomain_of,Writer::add_authority_rrset,Writer::add_additional_rrset"
+//   bound="UDP, limit 64; question a. A IN; Referral(cut a., NS {a., c.}); glue A of a. present, c. without address: 64 octets, complete; address lookups answered in the order glue, others; unwind 7"
+//   sym="NS TTL, glue TTL, 4 address octets"
 proof!(c05_referral_2ns, 7, {
     let (case, n) = referral_2ns(true, 64, false);
     kani::cover!(case == COMPLETE && n == 64, "complete referral");
-    let (case2, n2) = referral_2ns(true, 64, true);
-    kani::cover!(case2 == PARTIAL && n2 == 64, "glue kept, other address dropped");
+});
+
+// @harness name=c05_referral_2ns_drop props=C05,C04 panics=C05,C01 tier=thorough mem=4.5 t=3600 kani="--no-assertion-reach-checks" stubs="M1,T0"
+//   fn="Server::handle_non_axfr_query,answer,do_referral,add_additional_addresses,execute_allowing_truncation,read_name_from_rdata,Name::eq_or_subdomain_of,Writer::add_authority_rrset,Writer::add_additional_rrset"
+//   bound="UDP, limit 64; Referral(cut a., NS {a., c.}); glue A of a. and an A of c.: 80 octets needed; the glue must stay, the other address may go; unwind 7"
+//   sym="NS TTL, 2 address TTLs, 8 address octets"
+proof!(c05_referral_2ns_drop, 7, {
+    let (case, n) = referral_2ns(true, 64, true);
+    kani::cover!(case == PARTIAL && n == 64, "glue kept, other address dropped");
 });
 
 // @harness name=c05_referral_badns props=C05 panics=C05,C01 tier=thorough mem=4 t=1200 kani="--no-assertion-reach-checks" stubs="M1,T0"
@@ -1813,7 +1879,7 @@ proof!(c05_referral_badns, 7, {
         zone.n_steps = 1;
         let req = req_a(T_A);
         let mut resp = [0u8; 64];
-        let n = run(&zone, &req, true, 64, &mut resp);
+        let n = run(&zone, &req, P_A, true, 64, &mut resp);
         let ex = Expect::servfail(QEND_A);
         check_response(&resp, n, &ex, true, 64);
         k += 1;
@@ -1843,7 +1909,7 @@ proof!(c05_cname_referral, 7, {
     zone.n_asteps = 1;
     let req = req_a(T_A);
     let mut resp = [0u8; 64];
-    let n = run(&zone, &req, true, 64, &mut resp);
+    let n = run(&zone, &req, P_A, true, 64, &mut resp);
     let mut ex = Expect::new(QEND_A);
     ex.aa = true;
     ex.push(exp_name(1, P_A.wire(), T_CNAME, c_ttl, P_B.wire()), 15);
@@ -1875,7 +1941,7 @@ fn any_query(k: usize) {
     zone.n_all = k;
     let req = req_a(255);
     let mut resp = [0u8; 64];
-    let n = run(&zone, &req, true, 64, &mut resp);
+    let n = run(&zone, &req, P_A, true, 64, &mut resp);
     let mut ex = Expect::new(QEND_A);
     ex.aa = true;
     if k == 0 {
@@ -1929,7 +1995,7 @@ proof!(c05_any_nxdomain, 7, {
     zone.all_name = P_A;
     let req = req_a(255);
     let mut resp = [0u8; 64];
-    let n = run(&zone, &req, true, 64, &mut resp);
+    let n = run(&zone, &req, P_A, true, 64, &mut resp);
     let mut ex = Expect::new(QEND_A);
     ex.aa = true;
     ex.rcode = RC_NXDOMAIN;
@@ -1972,7 +2038,7 @@ fn trunc_found(udp: bool, limit: usize) {
     zone.n_steps = 1;
     let req = req_a(T_A);
     let mut resp = [0u8; 64];
-    let n = run(&zone, &req, udp, limit, &mut resp);
+    let n = run(&zone, &req, P_A, udp, limit, &mut resp);
     let mut ex = Expect::new(QEND_A);
     ex.aa = true;
     ex.push(exp_a(1, P_A.wire(), T_A, ttl, o), A_REC);
@@ -2015,7 +2081,7 @@ fn trunc_neg(udp: bool, limit: usize) {
     zone.n_steps = 1;
     let req = req_a(T_A);
     let mut resp = [0u8; 64];
-    let n = run(&zone, &req, udp, limit, &mut resp);
+    let n = run(&zone, &req, P_A, udp, limit, &mut resp);
     let mut ex = Expect::new(QEND_A);
     ex.aa = true;
     ex.rcode = RC_NXDOMAIN;
@@ -2034,108 +2100,198 @@ proof!(c04_trunc_neg_udp, 7, {
 });
 
 /// Referral(cut a., NS b.a.) with glue: NS needs 35 octets, + A 51,
-/// + AAAA 63, both 79.
-fn trunc_glue(udp: bool, limit: usize, has_a: bool, has_aaaa: bool) {
+/// + AAAA 63, both 79.  A referral is sent with all its glue or not at all.
+fn trunc_glue(udp: bool, limit: usize, has_a: bool, has_aaaa: bool) -> u8 {
     let (case, n) = referral(true, false, udp, limit, has_a, has_aaaa);
     let need = 35 + if has_a { 16 } else { 0 } + if has_aaaa { 28 } else { 0 };
-    // a referral is sent with all its glue or not at all
     assert!(
         if limit >= need { case == COMPLETE && n == need } else if udp { case == TRUNCATED } else { case == TCP_FAILED },
         "[C04] a referral must carry all in-bailiwick glue or be truncated (UDP) / fail (TCP)"
     );
-    kani::cover!(udp && has_a && !has_aaaa && limit == 50 && case == TRUNCATED, "UDP: glue A one octet short: truncated");
-    kani::cover!(udp && has_a && !has_aaaa && limit == 51 && case == COMPLETE, "UDP: glue A fits exactly");
+    case
 }
 
-// @harness name=c04_trunc_glue_q props=C04,C05 panics=C04,C01 tier=quick mem=6 t=1800 kani="--no-assertion-reach-checks" stubs="M1,T0"
-//   fn="Server::handle_non_axfr_query,answer,do_referral,add_additional_addresses,Writer::add_authority_rrset,Writer::add_additional_rrset,Writer::clear_rrs,Writer::set_tc"
-//   bound="UDP; Referral(cut a., NS b.a.); glue A only at limits 34 50 51; missing room for glue => TC and no records, never a referral without its glue; unwind 7"
-//   sym="NS TTL, 2 TTLs, 20 address octets per run"
-proof!(c04_trunc_glue_q, 7, {
-    at_limits!(|l| trunc_glue(true, l, true, false); 34 50 51);
+// @harness name=c04_glue_a_l34 props=C04,C05 panics=C04,C01 tier=thorough mem=4.5 t=3600 kani="--no-assertion-reach-checks" stubs="M1,T0"
+//   fn="Server::handle_non_axfr_query,answer,do_referral,add_additional_addresses,execute_allowing_truncation,Writer::add_authority_rrset,Writer::add_additional_rrset,Writer::with_rollback,Writer::clear_rrs,Writer::set_tc"
+//   bound="UDP, size limit 34; question a. A IN; Referral(cut a., NS b.a.) with glue A: NS record ends at 35, glue record at 51; below 51: TC and no records, never a referral without its glue; unwind 7"
+//   sym="NS TTL, TTLs and octets of the address records"
+proof!(c04_glue_a_l34, 7, {
+    let case = trunc_glue(true, 34, true, false);
+    kani::cover!(case == TRUNCATED, "limit 34: truncated");
 });
 
-// @harness name=c04_trunc_glue_a_udp props=C04,C05 panics=C04,C01 tier=thorough mem=10 t=5400 kani="--no-assertion-reach-checks" stubs="M1,T0"
-//   fn="Server::handle_non_axfr_query,answer,do_referral,add_additional_addresses,Writer::add_authority_rrset,Writer::add_additional_rrset,Writer::clear_rrs,Writer::set_tc"
-//   bound="UDP; Referral(cut a., NS b.a.) with glue A only (51 octets needed); limits at both sides of every push site of the glue record and of the end of the NS record: 19 34 35 36 37 38 39 40 41 44 45 46 47 50 51 52 64; unwind 7"
-//   sym="NS TTL, 2 TTLs, 20 address octets per run"
-proof!(c04_trunc_glue_a_udp, 7, {
-    at_limits!(|l| trunc_glue(true, l, true, false); 19 34 35 36 37 38 39 40 41 44 45 46 47 50 51 52 64);
+// @harness name=c04_glue_a_l35 props=C04,C05 panics=C04,C01 tier=thorough mem=4.5 t=3600 kani="--no-assertion-reach-checks" stubs="M1,T0"
+//   fn="Server::handle_non_axfr_query,answer,do_referral,add_additional_addresses,execute_allowing_truncation,Writer::add_authority_rrset,Writer::add_additional_rrset,Writer::with_rollback,Writer::clear_rrs,Writer::set_tc"
+//   bound="UDP, size limit 35; question a. A IN; Referral(cut a., NS b.a.) with glue A: NS record ends at 35, glue record at 51; below 51: TC and no records, never a referral without its glue; unwind 7"
+//   sym="NS TTL, TTLs and octets of the address records"
+proof!(c04_glue_a_l35, 7, {
+    let case = trunc_glue(true, 35, true, false);
+    kani::cover!(case == TRUNCATED, "limit 35: truncated");
 });
 
-// @harness name=c04_trunc_glue_aaaa_udp props=C04,C05 panics=C04,C01 tier=thorough mem=10 t=5400 kani="--no-assertion-reach-checks" stubs="M1,T0"
-//   fn="Server::handle_non_axfr_query,answer,do_referral,add_additional_addresses"
-//   bound="UDP; size limits 34 35 36 46 47 62 63 64; Referral(cut a., NS b.a.) with glue AAAA only (63 octets needed) and with A + AAAA (79 needed: never fits); unwind 7"
-//   sym="NS TTL, 2 TTLs, 20 address octets per run"
-proof!(c04_trunc_glue_aaaa_udp, 7, {
-    at_limits!(|l| trunc_glue(true, l, false, true); 34 35 36 46 47 62 63 64);
-    at_limits!(|l| trunc_glue(true, l, true, true); 35 51 63 64);
+// @harness name=c04_glue_a_l37 props=C04,C05 panics=C04,C01 tier=thorough mem=4.5 t=3600 kani="--no-assertion-reach-checks" stubs="M1,T0"
+//   fn="Server::handle_non_axfr_query,answer,do_referral,add_additional_addresses,execute_allowing_truncation,Writer::add_authority_rrset,Writer::add_additional_rrset,Writer::with_rollback,Writer::clear_rrs,Writer::set_tc"
+//   bound="UDP, size limit 37; question a. A IN; Referral(cut a., NS b.a.) with glue A: NS record ends at 35, glue record at 51; below 51: TC and no records, never a referral without its glue; unwind 7"
+//   sym="NS TTL, TTLs and octets of the address records"
+proof!(c04_glue_a_l37, 7, {
+    let case = trunc_glue(true, 37, true, false);
+    kani::cover!(case == TRUNCATED, "limit 37: truncated");
 });
 
-// @harness name=c04_trunc_glue_tcp props=C04,C05 panics=C04,C01 tier=thorough mem=8 t=3600 kani="--no-assertion-reach-checks" stubs="M1,T0"
-//   fn="Server::handle_non_axfr_query,answer,do_referral,add_additional_addresses,Writer::clear_rrs"
-//   bound="TCP context; Referral(cut a., NS b.a.) with glue A at limits 34 35 50 51 64 and A + AAAA at 64: SERVFAIL without records instead of TC; unwind 7"
-//   sym="NS TTL, 2 TTLs, 20 address octets per run"
-proof!(c04_trunc_glue_tcp, 7, {
-    at_limits!(|l| trunc_glue(false, l, true, false); 34 35 50 51 64);
-    at_limits!(|l| trunc_glue(false, l, true, true); 64);
-    kani::cover!(true, "TCP runs done");
+// @harness name=c04_glue_a_l45 props=C04,C05 panics=C04,C01 tier=thorough mem=4.5 t=3600 kani="--no-assertion-reach-checks" stubs="M1,T0"
+//   fn="Server::handle_non_axfr_query,answer,do_referral,add_additional_addresses,execute_allowing_truncation,Writer::add_authority_rrset,Writer::add_additional_rrset,Writer::with_rollback,Writer::clear_rrs,Writer::set_tc"
+//   bound="UDP, size limit 45; question a. A IN; Referral(cut a., NS b.a.) with glue A: NS record ends at 35, glue record at 51; below 51: TC and no records, never a referral without its glue; unwind 7"
+//   sym="NS TTL, TTLs and octets of the address records"
+proof!(c04_glue_a_l45, 7, {
+    let case = trunc_glue(true, 45, true, false);
+    kani::cover!(case == TRUNCATED, "limit 45: truncated");
 });
 
-/// Referral(cut a., NS c.), c. in the parent zone: NS needs 34 octets; the
-/// addresses of c. are optional.
-fn trunc_optional(limit: usize, has_a: bool, has_aaaa: bool) {
-    let (case, n) = referral(false, false, true, limit, has_a, has_aaaa);
-    let complete = 34 + if has_a { 16 } else { 0 } + if has_aaaa { 28 } else { 0 };
+// @harness name=c04_glue_a_l47 props=C04,C05 panics=C04,C01 tier=thorough mem=4.5 t=3600 kani="--no-assertion-reach-checks" stubs="M1,T0"
+//   fn="Server::handle_non_axfr_query,answer,do_referral,add_additional_addresses,execute_allowing_truncation,Writer::add_authority_rrset,Writer::add_additional_rrset,Writer::with_rollback,Writer::clear_rrs,Writer::set_tc"
+//   bound="UDP, size limit 47; question a. A IN; Referral(cut a., NS b.a.) with glue A: NS record ends at 35, glue record at 51; below 51: TC and no records, never a referral without its glue; unwind 7"
+//   sym="NS TTL, TTLs and octets of the address records"
+proof!(c04_glue_a_l47, 7, {
+    let case = trunc_glue(true, 47, true, false);
+    kani::cover!(case == TRUNCATED, "limit 47: truncated");
+});
+
+// @harness name=c04_glue_a_l50 props=C04,C05 panics=C04,C01 tier=quick mem=4.5 t=3600 kani="--no-assertion-reach-checks" stubs="M1,T0"
+//   fn="Server::handle_non_axfr_query,answer,do_referral,add_additional_addresses,execute_allowing_truncation,Writer::add_authority_rrset,Writer::add_additional_rrset,Writer::with_rollback,Writer::clear_rrs,Writer::set_tc"
+//   bound="UDP, size limit 50; question a. A IN; Referral(cut a., NS b.a.) with glue A: NS record ends at 35, glue record at 51; below 51: TC and no records, never a referral without its glue; unwind 7"
+//   sym="NS TTL, TTLs and octets of the address records"
+proof!(c04_glue_a_l50, 7, {
+    let case = trunc_glue(true, 50, true, false);
+    kani::cover!(case == TRUNCATED, "limit 50: truncated");
+});
+
+// @harness name=c04_glue_a_l51 props=C04,C05 panics=C04,C01 tier=thorough mem=4.5 t=3600 kani="--no-assertion-reach-checks" stubs="M1,T0"
+//   fn="Server::handle_non_axfr_query,answer,do_referral,add_additional_addresses,execute_allowing_truncation,Writer::add_authority_rrset,Writer::add_additional_rrset,Writer::with_rollback,Writer::clear_rrs,Writer::set_tc"
+//   bound="UDP, size limit 51; question a. A IN; Referral(cut a., NS b.a.) with glue A: NS record ends at 35, glue record at 51; below 51: TC and no records, never a referral without its glue; unwind 7"
+//   sym="NS TTL, TTLs and octets of the address records"
+proof!(c04_glue_a_l51, 7, {
+    let case = trunc_glue(true, 51, true, false);
+    kani::cover!(case == COMPLETE, "limit 51: complete");
+});
+
+// @harness name=c04_glue_a_tcp_l50 props=C04,C05 panics=C04,C01 tier=thorough mem=4.5 t=3600 kani="--no-assertion-reach-checks" stubs="M1,T0"
+//   fn="Server::handle_non_axfr_query,answer,do_referral,add_additional_addresses,execute_allowing_truncation,Writer::add_authority_rrset,Writer::add_additional_rrset,Writer::with_rollback,Writer::clear_rrs,Writer::set_tc"
+//   bound="TCP context, size limit 50 (stands for a response beyond 65535 octets); Referral(cut a., NS b.a.) with glue A: one octet short: SERVFAIL without records, TC clear; unwind 7"
+//   sym="NS TTL, TTLs and octets of the address records"
+proof!(c04_glue_a_tcp_l50, 7, {
+    let case = trunc_glue(false, 50, true, false);
+    kani::cover!(case == TCP_FAILED, "TCP: server failure instead of TC");
+});
+
+// @harness name=c04_glue_aaaa_l62 props=C04,C05 panics=C04,C01 tier=thorough mem=4.5 t=3600 kani="--no-assertion-reach-checks" stubs="M1,T0"
+//   fn="Server::handle_non_axfr_query,answer,do_referral,add_additional_addresses,execute_allowing_truncation,Writer::add_authority_rrset,Writer::add_additional_rrset,Writer::with_rollback,Writer::clear_rrs,Writer::set_tc"
+//   bound="UDP, size limit 62; Referral(cut a., NS b.a.) with glue AAAA only: 63 octets needed; unwind 7"
+//   sym="NS TTL, TTLs and octets of the address records"
+proof!(c04_glue_aaaa_l62, 7, {
+    let case = trunc_glue(true, 62, false, true);
+    kani::cover!(case == TRUNCATED, "limit 62: truncated");
+});
+
+// @harness name=c04_glue_aaaa_l63 props=C04,C05 panics=C04,C01 tier=thorough mem=4.5 t=3600 kani="--no-assertion-reach-checks" stubs="M1,T0"
+//   fn="Server::handle_non_axfr_query,answer,do_referral,add_additional_addresses,execute_allowing_truncation,Writer::add_authority_rrset,Writer::add_additional_rrset,Writer::with_rollback,Writer::clear_rrs,Writer::set_tc"
+//   bound="UDP, size limit 63; Referral(cut a., NS b.a.) with glue AAAA only: 63 octets needed; unwind 7"
+//   sym="NS TTL, TTLs and octets of the address records"
+proof!(c04_glue_aaaa_l63, 7, {
+    let case = trunc_glue(true, 63, false, true);
+    kani::cover!(case == COMPLETE, "limit 63: complete");
+});
+
+/// Referral(cut a., NS c.), c. in the parent zone with an A: the NS record
+/// ends at 34, the (optional) A record at 50.
+fn trunc_optional(limit: usize) -> (u8, usize) {
+    let (case, n) = referral(false, false, true, limit, true, false);
     assert!(
-        if limit >= complete { case == COMPLETE } else if limit >= 34 { case == PARTIAL || case == TRUNCATED } else { case == TRUNCATED },
+        if limit >= 50 { case == COMPLETE } else if limit >= 34 { case == PARTIAL || case == TRUNCATED } else { case == TRUNCATED },
         "[C04] optional addresses: complete when they fit, else dropped or truncated; the NS set is mandatory"
     );
-    kani::cover!(has_a && !has_aaaa && limit == 49 && case == PARTIAL && n == 34, "optional A dropped without TC");
-    kani::cover!(has_a && !has_aaaa && limit == 50 && case == COMPLETE, "optional A fits exactly");
+    (case, n)
 }
 
-// @harness name=c04_trunc_optional_udp props=C04,C05 panics=C04,C01 tier=thorough mem=8 t=3600 kani="--no-assertion-reach-checks" stubs="M1,T0"
-//   fn="Server::handle_non_axfr_query,answer,do_referral,add_additional_addresses,execute_allowing_truncation"
-//   bound="UDP; Referral(cut a., NS c.), c. in the parent zone; A only at limits 33 34 35 49 50 64; AAAA only at 61 62; A + AAAA at 50 64; addresses are optional: dropped without TC when they do not fit, all present when they do; unwind 7"
-//   sym="NS TTL, 2 TTLs, 20 address octets per run"
-proof!(c04_trunc_optional_udp, 7, {
-    at_limits!(|l| trunc_optional(l, true, false); 33 34 35 49 50 64);
-    at_limits!(|l| trunc_optional(l, false, true); 61 62);
-    at_limits!(|l| trunc_optional(l, true, true); 50 64);
+// @harness name=c04_optional_l33 props=C04,C05 panics=C04,C01 tier=thorough mem=4.5 t=3600 kani="--no-assertion-reach-checks" stubs="M1,T0"
+//   fn="Server::handle_non_axfr_query,answer,do_referral,add_additional_addresses,execute_allowing_truncation,Writer::add_authority_rrset,Writer::add_additional_rrset,Writer::with_rollback,Writer::clear_rrs,Writer::set_tc"
+//   bound="UDP, size limit 33; Referral(cut a., NS c.), c. a name of the parent zone with an A: NS record ends at 34, optional A at 50; dropped without TC when it does not fit, present when it does; unwind 7"
+//   sym="NS TTL, TTLs and octets of the address records"
+proof!(c04_optional_l33, 7, {
+    let (case, n) = trunc_optional(33);
+    kani::cover!(case == TRUNCATED && n == 19, "limit 33: truncated");
 });
 
-// @harness name=c04_trunc_mx_udp props=C04,C05 panics=C04,C01 tier=thorough mem=8 t=3600 kani="--no-assertion-reach-checks" stubs="M1,T0"
-//   fn="Server::handle_non_axfr_query,answer,do_additional_section_processing,add_additional_addresses,execute_allowing_truncation"
-//   bound="UDP; Found(MX b.): 36 octets needed; exchange with A only at limits 35 36 51 52 64, with A + AAAA at 52 64; unwind 7"
-//   sym="ttl, pref, 2 TTLs, 20 address octets per run"
-proof!(c04_trunc_mx_udp, 7, {
-    at_limits!(|l| {
-        let (case, n) = found_target(T_MX, true, l, true, false);
-        assert!(
-            if l >= 52 { case == COMPLETE && n == 52 } else if l >= 36 { case == PARTIAL || case == TRUNCATED } else { case == TRUNCATED },
-            "[C04] MX answer: complete when it fits, optional addresses dropped or TC otherwise"
-        );
-        kani::cover!(l == 51 && case == PARTIAL && n == 36, "address of the exchange dropped without TC");
-    }; 35 36 51 52 64);
-    at_limits!(|l| {
-        let (case, _n) = found_target(T_MX, true, l, true, true);
-        assert!(case == PARTIAL || case == TRUNCATED, "[C04] 80 octets never fit in 64");
-    }; 52 64);
+// @harness name=c04_optional_l34 props=C04,C05 panics=C04,C01 tier=thorough mem=4.5 t=3600 kani="--no-assertion-reach-checks" stubs="M1,T0"
+//   fn="Server::handle_non_axfr_query,answer,do_referral,add_additional_addresses,execute_allowing_truncation,Writer::add_authority_rrset,Writer::add_additional_rrset,Writer::with_rollback,Writer::clear_rrs,Writer::set_tc"
+//   bound="UDP, size limit 34; Referral(cut a., NS c.), c. a name of the parent zone with an A: NS record ends at 34, optional A at 50; dropped without TC when it does not fit, present when it does; unwind 7"
+//   sym="NS TTL, TTLs and octets of the address records"
+proof!(c04_optional_l34, 7, {
+    let (case, n) = trunc_optional(34);
+    kani::cover!(case == PARTIAL && n == 34, "limit 34: partial");
 });
 
-// @harness name=c04_trunc_2ns_udp props=C04,C05 panics=C04,C01 tier=thorough mem=8 t=3600 kani="--no-assertion-reach-checks" stubs="M1,T0"
-//   fn="Server::handle_non_axfr_query,answer,do_referral,add_additional_addresses,execute_allowing_truncation"
-//   bound="UDP; Referral(cut a., NS {a., c.}), glue A of a. mandatory (64 octets with it), A of c. optional (80 with it), limits 47 48 63 64; unwind 7"
-//   sym="3 TTLs, 8 address octets per run"
-proof!(c04_trunc_2ns_udp, 7, {
-    at_limits!(|l| {
-        let (case, n) = referral_2ns(true, l, true);
-        assert!(
-            if l >= 64 { (case == PARTIAL && n == 64) || case == TRUNCATED } else { case == TRUNCATED },
-            "[C04] glue is kept or the response truncated; the other address may be dropped"
-        );
-        kani::cover!(l == 64 && case == PARTIAL, "glue kept, optional address dropped");
-        kani::cover!(l == 63 && case == TRUNCATED, "glue does not fit: truncated");
-    }; 47 48 63 64);
+// @harness name=c04_optional_l49 props=C04,C05 panics=C04,C01 tier=thorough mem=4.5 t=3600 kani="--no-assertion-reach-checks" stubs="M1,T0"
+//   fn="Server::handle_non_axfr_query,answer,do_referral,add_additional_addresses,execute_allowing_truncation,Writer::add_authority_rrset,Writer::add_additional_rrset,Writer::with_rollback,Writer::clear_rrs,Writer::set_tc"
+//   bound="UDP, size limit 49; Referral(cut a., NS c.), c. a name of the parent zone with an A: NS record ends at 34, optional A at 50; dropped without TC when it does not fit, present when it does; unwind 7"
+//   sym="NS TTL, TTLs and octets of the address records"
+proof!(c04_optional_l49, 7, {
+    let (case, n) = trunc_optional(49);
+    kani::cover!(case == PARTIAL && n == 34, "limit 49: partial");
 });
+
+// @harness name=c04_optional_l50 props=C04,C05 panics=C04,C01 tier=thorough mem=4.5 t=3600 kani="--no-assertion-reach-checks" stubs="M1,T0"
+//   fn="Server::handle_non_axfr_query,answer,do_referral,add_additional_addresses,execute_allowing_truncation,Writer::add_authority_rrset,Writer::add_additional_rrset,Writer::with_rollback,Writer::clear_rrs,Writer::set_tc"
+//   bound="UDP, size limit 50; Referral(cut a., NS c.), c. a name of the parent zone with an A: NS record ends at 34, optional A at 50; dropped without TC when it does not fit, present when it does; unwind 7"
+//   sym="NS TTL, TTLs and octets of the address records"
+proof!(c04_optional_l50, 7, {
+    let (case, n) = trunc_optional(50);
+    kani::cover!(case == COMPLETE && n == 50, "limit 50: complete");
+});
+
+/// Found(MX b.), b. with an A: the MX record ends at 36, the (optional) A at 52.
+fn trunc_mx(limit: usize) -> (u8, usize) {
+    let (case, n) = found_target(T_MX, true, limit, true, false);
+    assert!(
+        if limit >= 52 { case == COMPLETE && n == 52 } else if limit >= 36 { case == PARTIAL || case == TRUNCATED } else { case == TRUNCATED },
+        "[C04] MX answer: complete when it fits, optional addresses dropped or TC otherwise"
+    );
+    (case, n)
+}
+
+// @harness name=c04_mx_l35 props=C04,C05 panics=C04,C01 tier=thorough mem=4.5 t=3600 kani="--no-assertion-reach-checks" stubs="M1,T0"
+//   fn="Server::handle_non_axfr_query,answer,do_additional_section_processing,add_additional_addresses,execute_allowing_truncation,Writer::with_rollback"
+//   bound="UDP, size limit 35; question a. MX IN; Found(MX b.), b. with an A: MX record ends at 36, optional A at 52; unwind 7"
+//   sym="ttl, pref, TTL and octets of the A record"
+proof!(c04_mx_l35, 7, {
+    let (case, n) = trunc_mx(35);
+    kani::cover!(case == TRUNCATED && n == 19, "limit 35: truncated");
+});
+
+// @harness name=c04_mx_l36 props=C04,C05 panics=C04,C01 tier=thorough mem=4.5 t=3600 kani="--no-assertion-reach-checks" stubs="M1,T0"
+//   fn="Server::handle_non_axfr_query,answer,do_additional_section_processing,add_additional_addresses,execute_allowing_truncation,Writer::with_rollback"
+//   bound="UDP, size limit 36; question a. MX IN; Found(MX b.), b. with an A: MX record ends at 36, optional A at 52; unwind 7"
+//   sym="ttl, pref, TTL and octets of the A record"
+proof!(c04_mx_l36, 7, {
+    let (case, n) = trunc_mx(36);
+    kani::cover!(case == PARTIAL && n == 36, "limit 36: partial");
+});
+
+// @harness name=c04_mx_l51 props=C04,C05 panics=C04,C01 tier=thorough mem=4.5 t=3600 kani="--no-assertion-reach-checks" stubs="M1,T0"
+//   fn="Server::handle_non_axfr_query,answer,do_additional_section_processing,add_additional_addresses,execute_allowing_truncation,Writer::with_rollback"
+//   bound="UDP, size limit 51; question a. MX IN; Found(MX b.), b. with an A: MX record ends at 36, optional A at 52; unwind 7"
+//   sym="ttl, pref, TTL and octets of the A record"
+proof!(c04_mx_l51, 7, {
+    let (case, n) = trunc_mx(51);
+    kani::cover!(case == PARTIAL && n == 36, "limit 51: partial");
+});
+
+// @harness name=c04_2ns_l63 props=C04,C05 panics=C04,C01 tier=thorough mem=4.5 t=3600 kani="--no-assertion-reach-checks" stubs="M1,T0"
+//   fn="Server::handle_non_axfr_query,answer,do_referral,add_additional_addresses,execute_allowing_truncation,Writer::add_authority_rrset,Writer::add_additional_rrset,Writer::with_rollback,Writer::clear_rrs,Writer::set_tc"
+//   bound="UDP, size limit 63; Referral(cut a., NS {a., c.}), glue A of a. (ends at 64) and an A of c.: the glue does not fit: TC, no records; unwind 7"
+//   sym="NS TTL, 2 address TTLs, 8 address octets"
+proof!(c04_2ns_l63, 7, {
+    let (case, _n) = referral_2ns(true, 63, true);
+    assert!(case == TRUNCATED, "[C04] glue is kept or the response truncated");
+    kani::cover!(case == TRUNCATED, "glue does not fit: truncated");
+});
+
